@@ -8,6 +8,8 @@ From TskVerif Require Import C01.SweepProofs.
 From TskVerif Require Import C01.TreeProofs.
 From TskVerif Require Import C01.IndexProofs.
 From TskVerif Require Import C01.QueryProofs.
+From TskVerif Require Import C01.EdgeProofs.
+From TskVerif Require Import C01.LinkProofs.
 From TskVerif Require Import C01.Theorems.
 Import ListNotations.
 Open Scope Z_scope.
@@ -140,3 +142,40 @@ Theorem queries_correct : forall L ns es Ins Rem q,
      (m <> NULL -> In m lu /\ In m lv /\ forall a, In a lu -> In a lv -> tmq q m <= tmq q a) /\
      (m = NULL -> forall a, In a lu -> ~ In a lv)).
 Proof. exact queries_correct_lemma. Qed.
+
+(* (d, edge array) in every tree of the sweep and for every x of its interval, edge[u] is the
+   id i of the edge row with child u that covers x (get es i = that row), or NULL if there is
+   none; [es_id es] is the edge table with the parent column replaced by the row id. *)
+Theorem edge_id_spec : forall L ns es x u i,
+  valid_edgesb L ns es = true ->
+  (parent_at (es_id es) x u = i /\ i <> NULL) <->
+  (exists e, get es i = Ok e /\ echild e = u /\ eleft e <= x < eright e).
+Proof. exact edge_id_spec_lemma. Qed.
+
+Theorem edge_array_exact : forall L ns es Ins Rem q,
+  valid_edgesb L ns es = true -> index_sorted es Ins Rem -> mk_tseq L ns es Ins Rem = Ok q ->
+  forall o k t, tree_at_index q o k = Ok t ->
+  forall x, p_left (t_pos t) <= x < p_right (t_pos t) ->
+  forall u, 0 <= u < zlen ns -> get (t_edge t) u = Ok (parent_at (es_id es) x u).
+Proof. exact edge_array_exact_lemma. Qed.
+
+(* (d, sibling lists — partial for links_consistent)  [Chain t p l]: walking
+   left_child[p], right_sib, ... visits exactly the list l and ends at NULL, left_sib /
+   right_child[p] describe the same list backwards.
+   tsk_tree_insert_branch(p, c) appends c to the list of p and leaves every other parent's list
+   (that shares no node with it) unchanged; tsk_tree_remove_branch(p, c) deletes c from the list
+   of p, anywhere in the list, and leaves the others unchanged.
+   Missing for the full links_consistent: the global invariant (each node in at most one list,
+   list of p = {c | parent c = p}, list of the virtual root = roots under the threshold,
+   num_children) carried through remove_edge / insert_edge; tied by exact correspondence. *)
+Theorem insert_branch_appends : forall t p c t' l,
+  insert_branch t p c = Ok t' -> Chain t p l -> NoDup l -> ~ In c l -> c <> NULL ->
+  Chain t' p (l ++ [c]) /\
+  (forall p' l', p' <> p -> Chain t p' l' -> ~ In c l' -> (forall x, In x l -> ~ In x l') -> Chain t' p' l').
+Proof. exact insert_branch_chain. Qed.
+
+Theorem remove_branch_unlinks : forall t p c t' l1 l2,
+  remove_branch t p c = Ok t' -> Chain t p (l1 ++ c :: l2) -> NoDup (l1 ++ c :: l2) ->
+  Chain t' p (l1 ++ l2) /\
+  (forall p' l', p' <> p -> Chain t p' l' -> (forall x, In x (l1 ++ c :: l2) -> ~ In x l') -> Chain t' p' l').
+Proof. exact remove_branch_chain. Qed.
